@@ -102,8 +102,8 @@ impl Property for P {
     }
     fn cases(tier: Tier) -> u64 {
         match tier {
-            Tier::Quick => 15_000,
-            Tier::Thorough => 600_000,
+            Tier::Quick => 60_000,
+            Tier::Thorough => 1_500_000,
         }
     }
     fn strategy(_tier: Tier) -> BoxedStrategy<Case> {
